@@ -180,6 +180,7 @@ func stdPairings() []Pairing {
 		{Name: "Q1W1.grpc>grpcweb.proto", Client: wire.GRPC, ClientCodec: "proto", Method: "Bidi", Target: wire.GRPCWeb, TgtCodecs: []string{"proto"}, NMsgs: 2, NResp: 2},
 		{Name: "Q1W1.grpcweb>connect.proto", Client: wire.GRPCWeb, ClientCodec: "proto", Method: "SStream", Target: wire.ConnectStream, TgtCodecs: []string{"proto"}, NMsgs: 1, NResp: 2},
 		{Name: "Q1W1.connect>grpc.json", Client: wire.ConnectStream, ClientCodec: "json", Method: "CStream", Target: wire.GRPC, TgtCodecs: []string{"json"}, NMsgs: 2, NResp: 1},
+		{Name: "Q2W6.grpc.json>grpc.proto", Client: wire.GRPC, ClientCodec: "json", Method: "Bidi", Target: wire.GRPC, TgtCodecs: []string{"proto"}, NMsgs: 2, NResp: 2}, // (both ends carry the status in HTTP trailers)
 		{Name: "Q2W6.grpc.json>grpcweb.proto", Client: wire.GRPC, ClientCodec: "json", Method: "Bidi", Target: wire.GRPCWeb, TgtCodecs: []string{"proto"}, NMsgs: 2, NResp: 2},
 		{Name: "Q2W6.connect.proto>grpc.json.gzip", Client: wire.ConnectStream, ClientCodec: "proto", ClientComp: "gzip", Accept: []string{"gzip"}, Method: "Bidi", Target: wire.GRPC, TgtCodecs: []string{"json"}, TgtComp: []string{"gzip"}, RespComp: "gzip", NMsgs: 2, NResp: 2},
 		{Name: "Q2W1.grpcweb.gzip>grpc.nocomp", Client: wire.GRPCWeb, ClientCodec: "proto", ClientComp: "gzip", Method: "Bidi", Target: wire.GRPC, TgtCodecs: []string{"proto"}, NMsgs: 2, NResp: 2},
